@@ -11,9 +11,9 @@ HOOK_COMMITS = ["744ff62"]
 PROPS = {
     "C14": {
         "level": "model_checking",
-        "claim": "complete enumeration of a finite domain: every entry of every GF(2^4)/GF(2^8) table of both RS codecs (including the packed two-nibble table, the doubled exp range and the lazily generated codec-1 tables, also after a second initialisation) is compared with shift-and-reduce arithmetic; nothing is sampled",
+        "claim": "complete enumeration of a finite domain: every entry of every GF(2^4)/GF(2^8) table of both RS codecs (including the packed two-nibble table, the doubled exp range and the lazily generated codec-1 tables, also after a second initialisation) is compared with shift-and-reduce arithmetic; 'generated at first use': every history of up to three first uses of codec 1 (of_rs_init, of_rs_new, encoder session, decoder session by either submission API, each needing the tables) runs in its own pristine process, all four generated tables compared after every step and the sessions must have worked (155 processes); nothing is sampled",
         "technique": "exhaustive enumeration of a finite state space (all table indices) against a reference model",
-        "rule": "complete enumeration of every index of every GF table (three table sets) against shift-and-reduce field arithmetic; states = field elements, transitions = table entries compared",
+        "rule": "complete enumeration of every index of every GF table (three table sets) against shift-and-reduce field arithmetic, repeated after every step of every first-use history of length <= 3 over a 5-letter alphabet; states = field elements, transitions = table entries compared",
         "bounds": {"quick": "finite domain, complete", "thorough": "finite domain, complete"},
         "assumptions": ["reference arithmetic gfr_* (engine/ref.c) is the definition of GF(2)[x]/(x^4+x+1) and GF(2)[x]/(x^8+x^4+x^3+x^2+1)"],
         "runs": [
@@ -58,7 +58,7 @@ DEC_BOUNDS = {
     "quick": ("BFS all orders + duplicates + both APIs (+FINISH): RS codec1/codec2(m=8,m=4) 1<=k<n<=6, LDPC k<=5,r in 3..5,n<=9,N1 in 3..min(r,5),seeds{1,2}; SAS subsets n<=9; "
               "lowrate grid: 8 LDPC blocks k 2..4, r 10..14, N1 5..7, all orders of every prefix up to 5-6 symbols; "
               "subsets mode: all 2^n received subsets for RS m=4 n<=12, m=8/codec1 n<=11, LDPC n<=13 (SAS+FIN, ascending DWS+FIN, descending DWS); "
-              "large: RS (k,n) list up to 255 and LDPC (100,50),(40,20),(255,64),(1000,10),(700,6): all/first-k/last-k/k-1 symbols, single loss, one source replaced by one repair, cyclic windows, periodic losses, on strides; "
+              "large: RS (k,n) list up to 255 and LDPC (100,50),(40,20),(255,64),(1000,10),(700,6): all/first-k/last-k/k-1 symbols, single loss, one source replaced by one repair, cyclic windows, periodic losses, on strides; RS scenarios with a prelude (an earlier decoder session of the same codec, field and k with fewer repair symbols has rebuilt a lost source in the same process) for every k on a stride; low-rate even-N1 LDPC codes whose number of extra entries 2(n-k)-N1*k is 254 / 256 / 258 / 512 (thorough 65536): both orders, every single lost source, windows with and without the last repair symbol (a session that takes the last repair symbol for null although the reference matrix does not make it null is a violation); "
               "rows (C01, C03, C07): LDPC k 2..20, r 3..12, N1 3..5, seeds 1..3 (n<=44): every single equation, pair, and triple touching the first or last equation erased completely, everything else received, FINISH through both APIs; "
               "lens: 10 configurations x symbol lengths 1..40,63,64,65 x buffer alignments 0..7 (half of them above length 20) x callback none/buffer, plus the limits (k=1, k=n-1=254, n=255, m=4 n=15, LDPC n=5000); EVERY symbol length 41..2100 with configuration / alignment / callback rotating with the length; "
               "mid-range diagonal (large): every second k up to 252 for both RS codecs with a number of repair symbols derived from k (2 + 11k mod (253-k)) and the k = n-k diagonal: last-k window, middle windows of k and k-1 symbols, periodic loss, one / two sources replaced"),
@@ -160,7 +160,7 @@ PROPS["C05"] = {
 }
 PROPS["C06"] = {
     "level": "model_checking", "assumptions": ENC_ASSUME,
-    "claim": "RS: for m=4 all 105 (k,n), for m=8 and codec 1 the k list with n in {k+1,255}, all n<=12 (thorough: all k, n<=24), and EVERY k in 1..252 with a mid-range number of repair symbols (2 + 11k mod (253-k)) plus the k = n-k diagonal; every symbol length 41..2100 (thorough ..4200) on small codes: every repair ESI on the identity+dense payload equals the reference generator row (so codec 1 and codec 2/m=8 are byte-identical), enc_matrix of encoder and decoder sessions equals the reference; LDPC: the C05 grid, every reference equation sums to zero over the produced codeword; both slot modes, source buffers compared with pristine copies, NULL slot becomes a fresh library block with the same value; symbol lengths 1..40,64,65,1024 on a reduced list; repeated under AddressSanitizer",
+    "claim": "RS: for m=4 all 105 (k,n), for m=8 and codec 1 the k list with n in {k+1,255}, all n<=12 (thorough: all k, n<=24), and EVERY k in 1..252 with a mid-range number of repair symbols (2 + 11k mod (253-k)) plus the k = n-k diagonal; sessions with equal (k, n-k) and different field / codec back to back in one process (m=4, m=8, codec 1 in four orders, all (k, n) up to n = 15); every symbol length 41..2100 (thorough ..4200) on small codes: every repair ESI on the identity+dense payload equals the reference generator row (so codec 1 and codec 2/m=8 are byte-identical), enc_matrix of encoder and decoder sessions equals the reference; LDPC: the C05 grid, every reference equation sums to zero over the produced codeword; both slot modes, source buffers compared with pristine copies, NULL slot becomes a fresh library block with the same value; symbol lengths 1..40,64,65,1024 on a reduced list; repeated under AddressSanitizer",
     "technique": "exhaustive enumeration of parameter grids x repair ESIs x slot modes on the real encoders against reference models",
     "rule": "point = (codec,m,k,n,len) or (k,r,N1,seed,prefix); transitions = repair symbols built and compared",
     "bounds": {"quick": "see claim (quick lists)", "thorough": "see claim (thorough lists)"},
@@ -174,7 +174,7 @@ PROPS["C15"] = {
     "claim": "for every (k,r,N1,seed) of the grid: encoder and decoder sessions give the same IS_LAST_SYMBOL_NULL answer; whenever it is true every source column of the RFC matrix has even weight and the encoder's last repair symbol on the identity+dense payload is all zero; the answer is asked again (twice) after encoding; session histories (h_enc hist mode): in every sequence of sessions and other activities each LDPC session gives the answer a pristine process gives for the same code and role",
     "technique": "exhaustive enumeration of a parameter grid on the real code against the RFC 5170 reference model",
     "rule": "point = (k,r,N1,seed); non-trivial points are those where the claim is true (counted as null_last_claims)",
-    "bounds": {"quick": "k 1..12, r 3..10, N1 3..min(r,10), seeds 1..5, plus high-rate points; mid-range sweep: every k in 13..500 x 2-3 (r, N1, seed) derived from k (even and odd N1, k = r diagonal), every N1 in 11..40 on two shapes", "thorough": "k 1..32, r 3..16, seeds 1..50,16807,2^31-2, plus high-rate points up to k=400; mid-range sweep up to k=1500"},
+    "bounds": {"quick": "k 1..12, r 3..10, N1 3..min(r,10), seeds 1..5, plus high-rate points; even N1 with 254..258, 510..514, 768, 1024, 65534 / 65536 / 65538 extra entries; mid-range sweep: every k in 13..500 x 2-3 (r, N1, seed) derived from k (even and odd N1, k = r diagonal), every N1 in 11..40 on two shapes", "thorough": "k 1..32, r 3..16, seeds 1..50,16807,2^31-2, plus high-rate points up to k=400; mid-range sweep up to k=1500"},
     "runs": [{"name": "ldpc-trk", "src": "h_enc.c", "variant": "trk", "args": ["--mode", "ldpc"]},
              {"name": "hist-trk", "src": "h_enc.c", "variant": "trk", "args": ["--mode", "hist"]}],
 }
@@ -192,7 +192,7 @@ PROPS["C07"]["runs"] += [{"name": "enc-then-dec-one-session-asan", "src": "h_enc
 
 PROPS["C17"] = {
     "level": "model_checking",
-    "claim": "explicit-state BFS over sequences of the exported sparse-matrix operations on two real matrices (insert, find+delete, clear, copy, copyrows/copycols with every index vector, the _opt variants into an empty destination, copy_filled_matrix with every order-preserving map, sparse->dense->sparse, free+reallocate) against a set model; after every step find <=> membership, idempotent insert, every row/column traversal lists exactly the members in increasing order forwards and backwards; run under AddressSanitizer and under the allocation tracker (freeing releases everything); entry blocks of 4 (hook) so that block exhaustion and recycling are reached. Large matrices (real block size 1024): complete enumeration of 13 shapes (64x64 .. 1030x1030, 1x70000, 70000x1, 2x66000, 66000x2) x 6 fill patterns x 4 insertion orders, each followed by one fixed script of every operation (delete a third, re-insert, copy, copy over a used matrix, copyrows/copycols and the _opt variants with reversed and repeating index vectors, copy_filled_matrix into a larger matrix, sparse->dense with a reused dense matrix ->sparse into a used matrix, 1500 (thorough 6000) insert/delete cycles, two clears and refills) with the full structure compared with the set model after every step",
+    "claim": "explicit-state BFS over sequences of the exported sparse-matrix operations on two real matrices (insert, find+delete, composite 'walk to entry Y, find X, delete Y by pointer, insert Z' in both orders for every triple of cells (X = Z with Y in the same row / column on matrices above 6 cells) executed without intermediate observation, clear, copy, copyrows/copycols with every index vector, the _opt variants into an empty destination, copy_filled_matrix with every order-preserving map, sparse->dense->sparse, free+reallocate) against a set model; after every step find <=> membership, idempotent insert, every row/column traversal lists exactly the members in increasing order forwards and backwards; run under AddressSanitizer and under the allocation tracker (freeing releases everything); entry blocks of 4 (hook) so that block exhaustion and recycling are reached. Large matrices (real block size 1024): complete enumeration of 13 shapes (64x64 .. 1030x1030, 1x70000, 70000x1, 2x66000, 66000x2) x 6 fill patterns x 4 insertion orders, each followed by one fixed script of every operation (delete a third, re-insert, copy, copy over a used matrix, copyrows/copycols and the _opt variants with reversed and repeating index vectors, copy_filled_matrix into a larger matrix, sparse->dense with a reused dense matrix ->sparse into a used matrix, 1500 (thorough 6000) insert/delete cycles, two clears and refills) with the full structure compared with the set model after every step",
     "rule": "state = (entry sets of A and B, free-list length, block count) reached by an operation history; closure complete for the small dimension pairs, depth/state-capped (reported) for the larger ones",
     "bounds": {"quick": "dimension pairs 1x2/1x2, 2x1/2x2, 2x2/2x2, 2x2/2x3, 1x3/2x3, 3x1/3x2, 1x4/1x4 to closure; 2x3/3x3 to depth 5; large: 13 shapes x 6 patterns x 4 orders (2 orders on shapes above 70000 cells)", "thorough": "large: all 312 scripts, also under ASan; small: same to closure; 2x3/2x3 depth 10, 2x3/3x3 depth 7, 3x3/3x3 depth 6, 2x4/3x4 depth 6, 3x4/4x4 depth 5 or 10^6 states"},
     "assumptions": ["library built with -DOPENFEC_VERIF -DOPENFEC_VERIF_SPARSE_BLOCK=4 (hook 744ff62): block size 4 instead of 1024", "_opt copies are only exercised into an empty destination (their internal clear is commented out upstream, so a non-empty destination is not an in-range use)"],
@@ -205,7 +205,7 @@ PROPS["C17"] = {
 
 PROPS["C18"] = {
     "level": "model_checking",
-    "claim": "dense ops: depth-bounded explicit-state BFS over sequences of set/flip/clear/copy/copyrows(all index vectors)/copycols(5 column maps)/xor_rows on two real matrices for column counts 1,31,32,33,64,65 against a byte-per-bit model, every cell / row weight / column weight / emptiness / density / row_weight_ignore_first(multiples of 32) / hweight_array compared after every step, under AddressSanitizer; popcount helpers: all 2^32 arguments of of_hweight32, _table, _naive, all 256 of of_hweight8_table, boundary patterns for of_popcount_3 / of_hweight_array; solver: every p x q binary system for q<=p<=4, (5,<=4), (6,<=3) and every 4x4 block embedded at both word boundaries of a 66-column identity-completed system, with and without NULL (zero) right-hand sides, symbol lengths 1,8,9: OK <=> full column rank and the variables equal the known solution (right-hand sides given as symbols, with null sums given as NULL for pairwise different variables, and with null sums given as NULL for all-equal variables so that every even-weight equation has no constant term). Large: 12 shapes up to 1000 rows / 4097 columns x 6 content patterns, one script of every dense operation each (set, flip, set 0, xor_rows across the 255/256 row border, copy / copyrows / copycols into used and larger matrices, clear) with all cells, weights, emptiness, density, ignore_first compared after every step; 12 structured system families (triangular, staircase, hashed, duplicate / zero column ...) x 12 sizes q = 9..130 x (p = q, q+3) x symbol lengths 1..1000 x 3 right-hand-side modes",
+    "claim": "dense ops: depth-bounded explicit-state BFS over sequences of set/flip/clear/copy/copyrows(all index vectors)/copycols(5 column maps)/xor_rows on two real matrices for column counts 1,31,32,33,64,65 against a byte-per-bit model, every cell / row weight / column weight / emptiness / density / row_weight_ignore_first(multiples of 32) / hweight_array compared after every step, under AddressSanitizer; popcount helpers: all 2^32 arguments of of_hweight32, _table, _naive, all 256 of of_hweight8_table, boundary patterns for of_popcount_3 / of_hweight_array; solver: every p x q binary system for q<=p<=4, (5,<=4), (6,<=3) and every 4x4 block embedded at both word boundaries of a 66-column identity-completed system, with and without NULL (zero) right-hand sides, symbol lengths 1,8,9: OK <=> full column rank and the variables equal the known solution (right-hand sides given as symbols, with null sums given as NULL for pairwise different variables, and with null sums given as NULL for all-equal variables so that every even-weight equation has no constant term). Large: 12 shapes up to 1000 rows / 4097 columns x 6 content patterns, one script of every dense operation each (set, flip, set 0, xor_rows across the 255/256 row border, copy / copyrows / copycols into used and larger matrices, clear) with all cells, weights, emptiness, density, ignore_first compared after every step; 12 structured system families (triangular, staircase, hashed, duplicate / zero column ...) x 12 sizes q = 9..130 x (p = q, q+3) x symbol lengths 1..1000 x 3 right-hand-side modes; EVERY number of unknowns 5..200 (thorough ..400) on four families x (p = q, q+3)",
     "rule": "ops: state = (bit contents of both matrices incl. padding words) reached by an operation history; popcnt: every 32-bit word; solver: every binary matrix of the listed shapes",
     "bounds": {"quick": "ops depth 4; popcnt complete; solver: all shapes, lengths rotated for the two largest shapes, every 4th embedded block", "thorough": "ops depth 5 (ASan) and 6 (plain, 2e6-state cap); solver: all lengths x all matrices x all embedded blocks"},
     "assumptions": ["of_mod2dense_row_weight_ignore_first only for multiples of 32 (undefined otherwise)", "rows of a copycols destination beyond the source's row count are not defined by the operation and are resynchronised"],
@@ -234,7 +234,7 @@ PROPS["C16"] = {
 
 PROPS["C09"] = {
     "level": "model_checking",
-    "claim": "cross product (not pairwise) of k, n-k in {0,1,2,3,limit-1,limit,limit+1,2^31-1,2^31,2^32-1 (and the value wrapping n to 0)}, length in {0,1,2,7,8,9,1024,65536,2^32-1}, m in {0,1,3,4,5,7,8,9,16,65535}, N1 in {0..4,r-1,r,r+1,255}, seed in {-2^31,-1,0,1,2,2^31-2,2^31-1}, three roles, codecs 1,2,3: each tuple is one contained execution (crash / hang reported with the tuple); inside the advertised limits => OK followed by a functional encode/decode cycle (RS repair symbols compared with the reference generator), outside => error status; plus every single-argument corruption named by the property (NULL session, ESI out of range, wrong role) of every encoding/decoding/query entry point on 8 sessions x 3 roles: error status, sources untouched, session still completes a normal encode/decode",
+    "claim": "(functional cycle = encode, decode the first k symbols, decode with source 0 lost in ascending and in descending order; LDPC tuples whose number of extra entries 2(n-k)-N1*k is 2^8, 2^9, 2^16 are in the grid) cross product (not pairwise) of k, n-k in {0,1,2,3,limit-1,limit,limit+1,2^31-1,2^31,2^32-1 (and the value wrapping n to 0)}, length in {0,1,2,7,8,9,1024,65536,2^32-1}, m in {0,1,3,4,5,7,8,9,16,65535}, N1 in {0..4,r-1,r,r+1,255}, seed in {-2^31,-1,0,1,2,2^31-2,2^31-1}, three roles, codecs 1,2,3: each tuple is one contained execution (crash / hang reported with the tuple); inside the advertised limits => OK followed by a functional encode/decode cycle (RS repair symbols compared with the reference generator), outside => error status; plus every single-argument corruption named by the property (NULL session, ESI out of range, wrong role) of every encoding/decoding/query entry point on 8 sessions x 3 roles: error status, sources untouched, session still completes a normal encode/decode",
     "technique": "exhaustive enumeration of a boundary-value cross product and of all single-argument corruptions on the real API, each execution contained in a supervised worker",
     "rule": "one tuple / one (session, corruption) pair per execution; all distinct",
     "bounds": {"quick": "grid as in the claim (accepted shapes with n>10000 only for two lengths, one role), trk variant; corruptions under ASan", "thorough": "full grid, also under ASan"},
